@@ -106,9 +106,99 @@ def ask(port, req, tls, cctx, timeout=30):
             pass
 
 
+def forced_interleavings(ctx, res):
+    """The shared cache file's interleavings (Model/Conc: a writer's open-truncate / partial write / finish against a
+    reader), forced on the real code instead of waiting for the scheduler: while request A is inside savecache's
+    pickle.dump with only the first k bytes of the cache file written (k = 0: truncated, nothing flushed), request B for
+    the same directory runs to completion; then A finishes; then C asks again.  A, B and C must each get the response
+    a lone client gets."""
+    import pickle as real_pickle
+    import pygopherd.handlers.dir as dirmod
+    tree = pyg.Tree()
+    try:
+        trees.standard(tree, hostile_content=False)
+        cfg = pyg.make_config(tree.root, **{"handlers.dir.DirHandler|cachetime": "180"})
+        cachefile = cfg.get("handlers.dir.DirHandler", "cachefile")
+        views = [("gopher", "+"), ("gopherp", "$"), ("http", "+"), ("gemini", "+"), ("wap", "+"), ("spartan", "+")]
+        dirs = ["/", "/docs", "/pics"]
+
+        def drop_cache(d):
+            pth = tree.path((d if d != "/" else "") + "/" + cachefile)
+            if os.path.exists(pth):
+                os.unlink(pth)
+
+        def req(view, d):
+            p_, g_ = view
+            return pyg.request(reqs.build(p_, d, gplus=g_), cfg, tls=reqs.TLS[p_], reset=False)
+
+        def mask(b):
+            return re.sub(rb"(Last-Modified|Mod-Date):[^\r\n]*", b"T", b or b"")
+        for d in dirs:
+            alone = {}
+            for v in views:
+                drop_cache(d)
+                alone[v] = mask(req(v, d).out)
+            drop_cache(d)
+            size = len(real_pickle.dumps(("x", []), 1))
+            # learn the size of this directory's cache file
+            req(views[0], d)
+            try:
+                size = os.path.getsize(tree.path((d if d != "/" else "") + "/" + cachefile))
+            except OSError:
+                pass
+            cuts = sorted({0, 1, size // 2, max(size - 1, 0)} | ({ctx.rng.randrange(size)} if size else set()))
+            for k in cuts:
+                va, vb, vc = ctx.rng.choice(views), ctx.rng.choice(views), ctx.rng.choice(views)
+                drop_cache(d)
+                state = {"fired": False, "b": None}
+
+                class Shim:
+                    load = staticmethod(real_pickle.load)
+                    loads = staticmethod(real_pickle.loads)
+                    dumps = staticmethod(real_pickle.dumps)
+                    UnpicklingError = real_pickle.UnpicklingError
+                    PickleError = real_pickle.PickleError
+                    PicklingError = real_pickle.PicklingError
+                    HIGHEST_PROTOCOL = real_pickle.HIGHEST_PROTOCOL
+
+                    @staticmethod
+                    def dump(obj, fp, *a, **kw):
+                        data = real_pickle.dumps(obj, *a, **kw)
+                        if state["fired"]:
+                            fp.write(data)
+                            return
+                        state["fired"] = True
+                        fp.write(data[:k])
+                        fp.flush()
+                        state["b"] = req(vb, d)       # the racing reader, start to finish
+                        fp.write(data[k:])
+                orig = dirmod.pickle
+                dirmod.pickle = Shim
+                try:
+                    ra = req(va, d)
+                finally:
+                    dirmod.pickle = orig
+                rc = req(vc, d)
+                res.evaluations += 3
+                res.count("forced:" + ("fired" if state["fired"] else "writer-did-not-run"))
+                if not state["fired"]:
+                    continue
+                res.nontrivial.add(("forced", d, k, va, vb, vc))
+                for who, v, r in (("writer A", va, ra), ("reader B racing the half-written cache file", vb, state["b"]), ("later client C", vc, rc)):
+                    if r is None or r.exc is not None or mask(r.out) != alone[v]:
+                        res.violation("C14:forced-interleaving:" + who.split()[0], "a client racing a cache rewrite does not get the response it would get alone",
+                                      {"directory": d, "bytes_written_when_B_runs": k, "cache_file_size": size, "who": who, "view": v},
+                                      observed={"out": (r.out[:200] if r is not None and r.out is not None else None), "exc": repr(getattr(r, "exc", None))},
+                                      required=alone[v][:200], replay={"forced": True, "directory": d, "k": k, "views": [va, vb, vc]})
+    finally:
+        tree.close()
+        pyg.reset_globals()
+
+
 def run(ctx):
     res = Result()
-    res.rule = ("bursts of N in {16, 48} (thorough: up to 96) simultaneous real clients with seeded request mixes over 12 request forms "
+    res.rule = ("forced interleavings of the shared cache file (reader runs while the writer has written k bytes, k in {0, 1, half, all but "
+                "one, seeded}) on 3 directories x seeded protocol views, in-process; bursts of N in {16, 48} (thorough: up to 96) simultaneous real clients with seeded request mixes over 12 request forms "
                 "(6 protocols, plaintext and TLS) against the real threading and forking servers, cold start included, cache enabled; "
                 "non-trivial = concurrent requests whose sequential response is a success, distinct by (server type, burst, index)")
     res.assumptions = ["real thread/process schedules, the GIL and the accept queue are sampled, not enumerated",
@@ -121,6 +211,7 @@ def run(ctx):
         res.disagree("C14.shared-state-vocabulary", {"global": u}, "not in the model (known lazies: %d)" % len(KNOWN_LAZIES), "assigned inside a function")
     for pr in problems:
         res.disagree("C14.lazy-shape", pr, "if unset: X = f(config)", "different shape")
+    forced_interleavings(ctx, res)
     tree = pyg.Tree()
     try:
         shutil.rmtree(tree.root)
@@ -189,6 +280,73 @@ def run(ctx):
                             res.violation("C14:response-differs:" + stype, "a concurrent response differs from the response the client would get alone", inp,
                                           observed=results[i][:200], required=seq[picks[i]][:200], replay=rp)
                         res.count(f"{stype}:{'same' if results[i] == seq[picks[i]] else 'DIFF'}")
+                # ---- clients that misbehave: the others are served as if alone, the server keeps accepting -----------------
+                # (a) clients that connect and stay silent while others are served
+                silent = [socket.create_connection(("127.0.0.1", port), timeout=10) for _ in range(3)]
+                try:
+                    time.sleep(0.2)
+                    M = 8
+                    picks2 = [ctx.rng.randrange(len(forms)) for _ in range(M)]
+                    got = [None] * M
+
+                    def worker2(i):
+                        try:
+                            got[i] = mask(ask(port, forms[picks2[i]][0], forms[picks2[i]][1], cctx, timeout=12))
+                        except Exception as e:  # noqa
+                            got[i] = e
+                    ths = [threading.Thread(target=worker2, args=(i,)) for i in range(M)]
+                    for x in ths:
+                        x.start()
+                    for x in ths:
+                        x.join(30)
+                    for i in range(M):
+                        res.evaluations += 1
+                        res.nontrivial.add((stype, "beside-silent", i))
+                        inp = {"server": stype, "scenario": "3 connected clients stay silent", "request": forms[picks2[i]][0], "tls": bool(forms[picks2[i]][1])}
+                        if not isinstance(got[i], bytes):
+                            res.violation("C14:blocked-by-silent-client:" + stype, "a client was not served while another connected client stayed silent", inp,
+                                          observed=repr(got[i]), required="a response within 12 s", replay={"server": stype, "scenario": "silent"})
+                        elif got[i] != seq[picks2[i]]:
+                            res.violation("C14:response-differs:" + stype, "a response differs from the response the client would get alone", inp,
+                                          observed=got[i][:200], required=seq[picks2[i]][:200], replay={"server": stype, "scenario": "silent"})
+                        res.count(f"{stype}:beside-silent:{'same' if got[i] == seq[picks2[i]] else 'DIFF'}")
+                finally:
+                    for x in silent:
+                        x.close()
+                # (b) TLS handshakes that fail: garbage after the 0x16 byte, a disconnect in mid-handshake, a verifying client that
+                #     rejects the self-signed certificate
+                strict = ssl.create_default_context()
+                for k in range(6):
+                    try:
+                        c = socket.create_connection(("127.0.0.1", port), timeout=5)
+                        if k % 3 == 0:
+                            c.sendall(b"\x16\x03\x01\x00\x05garbage-that-is-no-client-hello")
+                            try:
+                                c.recv(100)
+                            except OSError:
+                                pass
+                        elif k % 3 == 1:
+                            c.sendall(b"\x16\x03\x01")
+                        else:
+                            try:
+                                strict.wrap_socket(c, server_hostname="localhost")
+                            except (ssl.SSLError, OSError):
+                                pass
+                        c.close()
+                    except OSError:
+                        pass
+                    res.count(f"{stype}:failed-handshake")
+                time.sleep(0.3)
+                for f in (forms[0], forms[4]):
+                    res.evaluations += 1
+                    try:
+                        a2 = mask(ask(port, f[0], f[1], cctx, timeout=12))
+                    except Exception as e:  # noqa
+                        a2 = e
+                    if a2 != mask(seq[forms.index(f)]):
+                        res.violation("C14:after-failed-handshake:" + stype, "after failed TLS handshakes a client is not served as if alone",
+                                      {"server": stype, "request": f[0]}, observed=repr(a2)[:200], required=seq[forms.index(f)][:200],
+                                      replay={"server": stype, "scenario": "failed-handshake"})
                 # still accepting
                 alive = ask(port, b"/testfile.txt\r\n", 0, cctx)
                 res.evaluations += 1
